@@ -26,6 +26,12 @@ def parseOp (s : String) : Option Hist.Op :=
   | "y" => some .peerStanzaReply
   | "h" => some .handlerErr
   | "s" => some .handlerStreamErr
+  | "he" => some (.handlerFails .eof)
+  | "hw" => some (.handlerFails .wrapEof)
+  | "hu" => some (.handlerFails .wrapUnexpected)
+  | "hj" => some (.handlerFails .joinEof)
+  | "hs" => some (.handlerFails .wrapStream)
+  | "hz" => some (.handlerFails .wrapStanza)
   | "e" => some .peerStreamErr
   | "p" => some .peerClose
   | "g" => some .peerGarbage
@@ -42,7 +48,7 @@ def showRes : Hist.Res → String
 def showRet : Hist.Ret → String
   | .running => "running" | .notStarted => "notstarted" | .nil_ => "nil" | .handlerErr => "handlererr"
   | .streamErr => "streamerr" | .peerStreamErr => "peerstreamerr" | .garbage => "garbage"
-  | .deadline => "deadline" | .closedOut => "closedout"
+  | .deadline => "deadline" | .closedOut => "closedout" | .unexpectedEof => "unexpectedeof"
 
 def showItem : Hist.Item → String
   | .el => "el" | .close => "close"
